@@ -7,8 +7,8 @@ CONSTANTS Cap = 2
  MixDepth = 2
  MixAnyTime = FALSE
  UncheckedLengths = FALSE
- SilencePanics = TRUE
+ SilencePanics = FALSE
  MaxFails = 1
- FailedStartStuck = FALSE
+ FailedStartStuck = TRUE
 INVARIANTS TypeOK C10_failed_start_clean C10_run_ends_clean C10_no_stuck C11_mix_answered C11_no_crash MixServedWhileRunning
 CHECK_DEADLOCK FALSE
